@@ -480,13 +480,15 @@ func (api *API) mapDecodeSlice(ctx context.Context, mapVal any, value reflect.Va
 		return nil
 	}
 
-	elems, ok := mapVal.([]any)
-	if !ok {
-		return ierrors.Errorf("non []any value in map when decoding a slice, got %T instead", mapVal)
+	// the elements are read through reflect: JSON yields []any, but a map built in Go may hold any slice or array
+	// type ([]float64, []string, []map[string]any, [N]T). Everything else (string, number, object, null) is an error.
+	refVal := reflect.ValueOf(mapVal)
+	if !refVal.IsValid() || (refVal.Kind() != reflect.Slice && refVal.Kind() != reflect.Array) {
+		return ierrors.Errorf("non slice or array value in map when decoding a slice, got %T instead", mapVal)
 	}
-	for _, elem := range elems {
+	for i := range refVal.Len() {
 		elemValue := reflect.New(valueType.Elem()).Elem()
-		if err := api.mapDecode(ctx, elem, elemValue, TypeSettings{}, opts); err != nil {
+		if err := api.mapDecode(ctx, refVal.Index(i).Interface(), elemValue, TypeSettings{}, opts); err != nil {
 			return ierrors.WithStack(err)
 		}
 		value.Set(reflect.Append(value, elemValue))
